@@ -25,7 +25,7 @@ KINDS = {
     },
     "list": {
         "init": ["(list 1 2 3)", "(list)", "(list (list 1) 2)"],
-        "updates": ["(cons %d X)", "(append X (list %d))", "(reverse X)", "(append X X)", "(cdr (cons %d X))", "(map (lambda (e) e) X)"],
+        "updates": ["(cons %d X)", "(append X (list %d))", "(reverse X)", "(append X X)", "(cdr (cons %d X))", "(map (lambda (e) e) X)", "(cdr X)"],
     },
     "ivec": {
         "init": ["(immutable-vector 1 2 3)", "(immutable-vector)"],
@@ -52,7 +52,7 @@ def gen_program(r):
         if "%d" in upd:
             upd = upd % r.randint(0, 9)
         pat = r.choice(["plain", "plain", "alias-kept", "alias-dropped", "closure", "container", "twice", "callback", "apply",
-                        "function-last-use", "function-not-last-use", "thread", "let-chain"])
+                        "function-last-use", "function-not-last-use", "thread", "let-chain", "deep-parameter", "deep-parameter"])
         pats.append(pat)
         n += 1
         new = "v%d" % n
@@ -94,6 +94,22 @@ def gen_program(r):
             lines.append("(define pair%d (upd%d %s))" % (n, n, cur))
             observers.append("(car (cdr pair%d))" % n)
             lines.append("(define %s (car pair%d))" % (new, n))
+        elif pat == "deep-parameter":
+            # the value arrives as a late parameter (5th or later) of a function called from another compiled
+            # function, is read once and then consumed by the update in the same expression
+            k = r.randint(4, 7)
+            total = k + r.randint(1, 2)
+            ps = ["q%d" % j for j in range(total)]
+            ps[k] = "m"
+            first_read = r.random() < 0.6
+            body = "(list m %s)" % upd.replace("X", "m") if first_read else "(list %s m)" % upd.replace("X", "m")
+            lines.append("(define (upd%d %s) %s)" % (n, " ".join(ps), body))
+            args = [str(j) for j in range(total)]
+            args[k] = "x"
+            lines.append("(define (call%d x) (upd%d %s))" % (n, n, " ".join(args)))
+            lines.append("(define pair%d (call%d %s))" % (n, n, cur))
+            observers.append("(car %spair%d)" % ("" if first_read else "(cdr ", n) + ("" if first_read else ")"))
+            lines.append("(define %s (car %spair%d%s))" % (new, "(cdr " if first_read else "", n, ")" if first_read else ""))
         elif pat == "thread":
             lines.append("(define %s (thread-join! (spawn-native-thread (lambda () %s))))" % (new, upd.replace("X", cur)))
         else:  # let-chain: several updates where each intermediate is at its last use
@@ -141,7 +157,7 @@ def main(tier):
         for p in pats:
             bypat[p] = bypat.get(p, 0) + 1
         if any(p in ("plain", "alias-dropped", "let-chain", "function-last-use") for p in pats) and \
-                any(p in ("alias-kept", "closure", "container", "twice", "function-not-last-use") for p in pats):
+                any(p in ("alias-kept", "closure", "container", "twice", "function-not-last-use", "deep-parameter") for p in pats):
             rep.nontrivial(src)
     rep.note("updates_by_aliasing_pattern", bypat)
     uniq_total = 0
